@@ -162,6 +162,7 @@ def wl_snapshots(ctx, rng, case):
         snap.boundary("after creation")
         snap.images, snap.keep = [], set(rng.sample(range(1, 40), 6))
         added = []
+        exported = []  # (path, bytes at the time of the export): an export is a copy - what happens to the filter later does not reach it
         # some histories hand every key over in ONE mutable buffer that the caller refills in place between the calls (a read loop)
         buf = bytearray() if hf is None and rng.random() < 0.2 else None
         if buf is not None:
@@ -235,6 +236,7 @@ def wl_snapshots(ctx, rng, case):
                 with open(tgt, "rb") as fh:
                     copy = fh.read()
                 ctx.check(copy == orc.expected_file(), "export(path) is not the current export of the filter", step=step)
+                exported.append((tgt, copy))
                 snap.boundary("after export")
                 ctx.count("exports_under_snapshots")
             else:
@@ -268,6 +270,9 @@ def wl_snapshots(ctx, rng, case):
             f.close()
         with open(path, "rb") as fh:
             ctx.check(fh.read() == orc.expected_file(), "after the final close the backing file differs from the in-memory export of the same history")
+        for tgt, copy in exported:
+            with open(tgt, "rb") as fh:
+                ctx.check(fh.read() == copy, "a file exported earlier changed while the filter it was exported from went on")
         ctx.count("crash_points", snap.points)
         ctx.count("distinct_file_states_validated", snap.states)
         # ---- a few of the crash images (what a kill at that line leaves behind) are REOPENED: the filter reports the count the file
